@@ -35,6 +35,9 @@ func runC02(c *Ctx) {
 	c04Helpers(c)
 	c04Wipe(c)
 	c04Behind(c)
+	// a followed database labelled with TXID n holds exactly the state of n: files are
+	// applied only when contiguous with the follower's position (shared with C16)
+	c16Contiguous(c)
 }
 
 func c02Snapshot(c *Ctx) {
